@@ -110,11 +110,13 @@ Section Inv.
     unfold prepass. generalize (seq 0 (length (p_tasks p))). intros l.
     assert (G : forall l st, Inv st -> Inv (fold_left (fun st t => let k := task_of p t in
                          if t_leaf k && Nat.eqb (t_need k) 0
-                         then match t_pin k with Some s => place st t (s, s) | None => st end
+                         then match t_pin k with
+                              | Some s => if s <=? p_upper p then place st t (s, s) else st
+                              | None => st end
                          else st) l st)).
     { induction l0 as [|t tl IH]; intros st Hi; cbn [fold_left]; [exact Hi|]. apply IH.
       cbn zeta. destruct (t_leaf (task_of p t) && Nat.eqb (t_need (task_of p t)) 0); [|exact Hi].
-      destruct (t_pin (task_of p t)); [now apply place_inv|exact Hi]. }
+      destruct (t_pin (task_of p t)) as [s|]; [|exact Hi]. destruct (s <=? p_upper p); [now apply place_inv|exact Hi]. }
     apply G. apply init_inv.
   Qed.
 
